@@ -1185,8 +1185,14 @@ func (c *Context) quantize(d, v *Decimal, exp int32) Condition {
 		p := int32(d.NumDigits()) - diff
 		if p < 0 {
 			if !d.IsZero() {
+				// All digits are discarded and the discarded part is below
+				// half a unit, but the rounding mode may still round away
+				// from zero.
 				d.Coeff.SetInt64(0)
 				res = Inexact | Rounded
+				if c.Rounding.ShouldAddOne(&d.Coeff, d.Negative, -1) {
+					d.Coeff.SetInt64(1)
+				}
 			}
 		} else {
 			nc := c.WithPrecision(uint32(p))
